@@ -54,7 +54,7 @@ static int add_threads(m_thpool_t *pool, int num);
 static void *thpool_thread(void *thpool) {
     m_thpool_t *pool = (m_thpool_t *)thpool;
     
-    while (true) {
+    while (true) M_VERIF_LOOP(pool_worker) {
         /* Lock must be taken to wait on conditional variable */
         pthread_mutex_lock(&(pool->lock));
         
@@ -62,7 +62,7 @@ static void *thpool_thread(void *thpool) {
          * Wait on condition variable, check for spurious wakeups.
          * When returning from pthread_cond_wait(), we own the lock. 
          */
-        while (m_queue_len(pool->tasks) == 0 && pool->shutdown == SHUTDOWN_NO) {
+        while (m_queue_len(pool->tasks) == 0 && pool->shutdown == SHUTDOWN_NO) M_VERIF_LOOP(pool_wait) {
             pthread_cond_wait(&(pool->notify), &(pool->lock));
         }
 
@@ -103,7 +103,7 @@ static int wait_pool(m_thpool_t *pool, thpool_shutdown_t shutdown) {
     if (ret == 0) {
         if (!(pool->flags & M_THPOOL_DETACHED)) {
             /* Join all worker threads */
-            m_itr_foreach(pool->threads, {
+            m_itr_foreach(pool->threads, M_VERIF_LOOP(pool_join) {
                 pthread_t *th = m_itr_get(m_itr);
                 ret += pthread_join(*th, NULL);
             });
@@ -128,7 +128,7 @@ static int add_threads(m_thpool_t *pool, int num) {
         pthread_attr_setdetachstate(&tattr, PTHREAD_CREATE_DETACHED);
     }
     int err = 0;
-    for (int i = 0; i < num && err == 0; i++) {
+    for (int i = 0; i < num && err == 0; i++) M_VERIF_LOOP(pool_spawn) {
         pthread_t *th = memhook._calloc(1, sizeof(pthread_t));
         err = pthread_create(th, &tattr, thpool_thread, (void *) pool);
         if (err == 0) {
